@@ -393,3 +393,211 @@ def make_check_C04(tier):
 
 def make_check_C06(tier):
     return make_rewrite_check("C06", tier, ["C06"])
+
+
+# ---------------------------------------------------------------------------
+# C03: the CFG, flattened to instructions, is the control flow of the edited listing
+# ---------------------------------------------------------------------------
+TRANSFERS = ("jmp", "jcc", "call", "icall", "ijmp", "ret")
+
+
+def expected_flow(sc, ls):
+    """{atom id: set of (type, target, conditional, direct)} per rules R3-R5.
+    target: atom id | 'proxy' | 'ext:<name>' | 'zero:<label>' (documented zero-sized block)."""
+    flow = {}
+    label_target = {}
+    atoms_by_id = {}
+    seq_by_section = {}
+    for sname, items in ls.sections.items():
+        seq = [it for it in items if it.t in ("atom", "gap", "label")]
+        seq_by_section[sname] = seq
+        for i, it in enumerate(seq):
+            if it.t == "atom":
+                atoms_by_id[it.id] = it
+            if it.t == "label":
+                nxt = next((x for x in seq[i + 1:] if x.t in ("atom", "gap")), None)
+                if getattr(it, "proxy", False):
+                    label_target[it.sym] = "proxyref"
+                elif nxt is not None and nxt.t == "atom" and nxt.code:
+                    label_target[it.sym] = nxt.id
+                else:
+                    label_target[it.sym] = "zero:" + it.sym
+    for name in ls.ext:
+        label_target[name] = "ext:" + name
+
+    def resolve(label):
+        if label.startswith(".L"):
+            hits = [k for k in label_target if k == label]
+            return label_target[hits[0]] if hits else None
+        return label_target.get(label)
+
+    call_sites = {}
+    for sname, seq in seq_by_section.items():
+        bytes_seq = [x for x in seq if x.t in ("atom", "gap")]
+        for i, it in enumerate(bytes_seq):
+            if it.t != "atom" or not it.code:
+                continue
+            nxt = bytes_seq[i + 1] if i + 1 < len(bytes_seq) else None
+            out = set()
+            ft = nxt.id if (nxt is not None and nxt.t == "atom" and nxt.code and it.kind in L.FALLS_THROUGH) else None
+            if ft is not None:
+                out.add(("Fallthrough", ft, False, True))
+            if it.kind in ("jmp", "jcc"):
+                out.add(("Branch", resolve(it.target), it.kind == "jcc", True))
+            elif it.kind == "call":
+                tgt = resolve(it.target)
+                out.add(("Call", tgt, False, True))
+                if ft is not None and tgt in atoms_by_id and atoms_by_id[tgt].func:
+                    call_sites.setdefault(atoms_by_id[tgt].func, set()).add(ft)
+            elif it.kind == "ijmp":
+                out.add(("Branch", "proxy", False, False))
+            elif it.kind == "icall":
+                out.add(("Call", "proxy", False, False))
+            flow[it.id] = out
+    for aid, it in atoms_by_id.items():
+        if it.code and it.kind == "ret":
+            sites = call_sites.get(it.func, set()) if it.func else set()
+            if sites:
+                for s in sites:
+                    flow[aid].add(("Return", s, False, True))
+            else:
+                flow[aid].add(("Return", "proxy", False, True))
+    return flow, atoms_by_id
+
+
+def check_cfg(sc, ls):
+    eng = sc.eng
+    m = sc.module
+    cfg = sc.ir.cfg
+    bases = _bases(sc)
+    flow, atoms_by_id = expected_flow(sc, ls)
+    # block -> ordered atoms (by listing position)
+    block_atoms = {}
+    atom_block = {}
+    for sect in sc.sections:
+        items, _ = ls.positions(sect.name)
+        ranges = [(b, s, e) for (b, s, e) in block_ranges(sc, bases, code_only=False) if b.section is sect]
+        for it, pos in items:
+            if it.t != "atom":
+                continue
+            cover = [b for (b, s, e) in ranges if eng.must(And(s <= pos, pos + it.length <= e))]
+            eng.check(len(cover) == 1, "C03 atom %s is covered by %d blocks" % (it.id, len(cover)))
+            block_atoms.setdefault(cover[0], []).append(it)
+            atom_block[it.id] = cover[0]
+    sym_by_proxy = {}
+    for s in m.symbols:
+        if isinstance(s.referent, gtirb.ProxyBlock):
+            sym_by_proxy.setdefault(s.referent, []).append(s.name)
+    # every edge endpoint is part of the module
+    for e in cfg:
+        for node in (e.source, e.target):
+            if isinstance(node, gtirb.ProxyBlock):
+                eng.check(node in m.proxies, "C03 edge endpoint is a proxy outside the module")
+            else:
+                eng.check(node.byte_interval is not None and node.module is m, "C03 edge endpoint is a block that left the module")
+    for blk, atoms in block_atoms.items():
+        if not isinstance(blk, gtirb.CodeBlock):
+            continue
+        for a in atoms[:-1]:
+            eng.check(a.kind not in TRANSFERS, "C03 control-transfer instruction %s (%s) is buried inside a block" % (a.id, a.kind),
+                      category="buried", kind=a.kind)
+        last = atoms[-1]
+        got = set()
+        for e in blk.outgoing_edges:
+            t = e.target
+            if isinstance(t, gtirb.ProxyBlock):
+                names = [n for n in sym_by_proxy.get(t, []) if n in ls.ext]
+                tgt = "ext:" + names[0] if names else "proxy"
+            elif t.size == 0 or t not in block_atoms:
+                labels = sorted(s.name for s in t.references)
+                tgt = "zero:" + (labels[0] if labels else "?")
+            else:
+                tgt = block_atoms[t][0].id
+            got.add((e.label.type.name, tgt, bool(e.label.conditional), bool(e.label.direct)))
+        want = set()
+        for (typ, tgt, cond, direct) in flow.get(last.id, set()):
+            if tgt == "proxyref":
+                tgt = "proxy"
+            if isinstance(tgt, str) and tgt.startswith("zero:"):
+                # any label of the same zero-sized block is fine: compare by block
+                pass
+            want.add((typ, tgt, cond, direct))
+        if got != want:
+            gz = {(a, "zero" if str(b).startswith("zero:") else b, c, d) for (a, b, c, d) in got}
+            wz = {(a, "zero" if str(b).startswith("zero:") else b, c, d) for (a, b, c, d) in want}
+            if gz == wz:
+                continue
+            # documented representations of "falls off into something that is not code any more":
+            #  - nothing (or data) follows an instruction that can fall through: Fallthrough to a proxy / zero-sized block
+            #  - the block that followed was deleted with retarget_to_proxy: its incoming edges go to the proxy
+            can_ft = last.kind in L.FALLS_THROUGH
+            has_ft = any(t == "Fallthrough" for (t, _, _, _) in wz)
+            unknown_ft = {x for x in gz - wz if x[0] == "Fallthrough" and x[1] in ("proxy", "zero")}
+            if can_ft and unknown_ft and (not has_ft or _proxy_deleted_successor(sc, last)):
+                gz2 = gz - unknown_ft
+                wz2 = {x for x in wz if x[0] != "Fallthrough"} if has_ft else wz
+                if gz2 == wz2:
+                    continue
+            finding = _cfg_finding(sc, last, gz - wz, wz - gz)
+            extra = sorted(map(str, gz - wz))
+            missing = sorted(map(str, wz - gz))
+            eng.fail("C03 edges of instruction %s (%s): unexpected %s, missing %s" % (last.id, last.kind, extra, missing),
+                     category=_cfg_category(last, gz - wz, wz - gz), atom=str(last.id), finding=finding)
+        # an edge must enter a block at its first instruction: holds by construction of `got` (targets map to
+        # block_atoms[t][0]); what remains is that expected targets are block heads
+        for (typ, tgt, cond, direct) in want:
+            if tgt in atom_block:
+                eng.check(block_atoms[atom_block[tgt]][0].id == tgt, "C03 edge target %s is not the first instruction of its block" % tgt)
+    # zero-sized code blocks: exactly one outgoing edge, a fallthrough to a proxy
+    for blk in m.code_blocks:
+        if eng.must(blk.size == 0):
+            outs = list(blk.outgoing_edges)
+            eng.check(len(outs) == 1 and outs[0].label.type == gtirb.Edge.Type.Fallthrough
+                      and isinstance(outs[0].target, gtirb.ProxyBlock),
+                      "C03/C05 zero-sized code block without the documented fallthrough-to-proxy edge")
+
+
+def _proxy_deleted_successor(sc, last):
+    """Does the scenario delete, with retarget_to_proxy, the block that originally followed last's block?"""
+    order = [b["id"] for s in sc.spec["sections"] for b in s["blocks"]]
+    natoms = {b["id"]: len(b["atoms"]) for s in sc.spec["sections"] for b in s["blocks"]}
+    if last.blk not in order:
+        return False
+    i = order.index(last.blk)
+    for md in sc.spec.get("mods", []):
+        if md["op"] == "delete" and md.get("proxy") and md["blk"] in order[i + 1:i + 2] + [last.blk]:
+            return True
+    return False
+
+
+def _cfg_finding(sc, last, extra, missing):
+    """Known-finding id for a CFG difference, or None (see known_findings.json)."""
+    term = sc.bspec.get(last.blk, {}).get("atoms", ["o"])[-1].partition(":")[0]
+    if not extra and missing and all(x[0] == "Fallthrough" for x in missing) and term in ("jmp", "ret", "ijmp"):
+        return "C03-no-fallthrough-after-removed-or-passed-terminator"
+    if not missing and extra and all(x[0] == "Return" for x in extra) and last.kind != "ret":
+        func = sc.bspec.get(last.blk, {}).get("func")
+        term = sc.bspec.get(last.blk, {}).get("atoms", ["o"])[-1]
+        for md in sc.spec.get("mods", []):
+            if md["op"] == "insert" and md["blk"] == last.blk and str(md.get("patch", "")).startswith("call:") and term == "ret":
+                callee_blk = L.Listing.from_scenario(sc).label_block.get(md["patch"][5:])
+                if callee_blk and sc.bspec[callee_blk].get("func") == func:
+                    return "C03-recursive-call-in-ret-block"
+    if not missing and extra and all(x[0] == "Return" and x[1] == "proxy" for x in extra) and last.kind == "ret":
+        for md in sc.spec.get("mods", []):
+            if md["op"] == "replace" and str(md.get("patch", "")).startswith("call:"):
+                return "C03-stale-proxy-return-edge"
+    return None
+
+
+def _cfg_category(last, extra, missing):
+    et = sorted({x[0] for x in extra})
+    mt = sorted({x[0] for x in missing})
+    return "%s:+%s-%s" % (last.kind, ",".join(et), ",".join(mt))
+
+
+PROP_CHECKS["C03"] = [check_bytes, check_cfg]
+
+
+def make_check_C03(tier):
+    return make_rewrite_check("C03", tier, ["C03"])
